@@ -123,4 +123,10 @@ class Subroutine:  # pylint: disable=too-many-instance-attributes
         Returns:
             Returns a list of subroutines called by the subroutine.
         """
-        return list(set(bi.called_subroutine for bi in self._blocks if bi.is_callsub_block))
+        # in order of the first call site: a set of subroutine objects has an address dependent order
+        # which would show in the order of Function.blocks and everything that iterates over it.
+        called: List["Subroutine"] = []
+        for bi in self._blocks:
+            if bi.is_callsub_block and bi.called_subroutine not in called:
+                called.append(bi.called_subroutine)
+        return called
